@@ -1,0 +1,99 @@
+//go:build verif
+
+// Contracts for govc (contract-based deductive verification); comments only.
+package consolidation
+
+//@ import v2alpha2 "github.com/NVIDIA/KAI-scheduler/pkg/apis/scheduling/v2alpha2"
+
+// C06: "Reclaim, preempt and consolidation never evict pods of non-preemptible workloads": the
+// consolidation victim filter accepts only preemptible jobs other than the preemptor that have
+// active allocated tasks (and only while the configured number of candidate jobs is not exceeded).
+//@ define activeAlloc(j *podgroup_info.PodGroupInfo) int = *j.activeAllocatedCount
+//@ define consolidationVictim(p *podgroup_info.PodGroupInfo, j *podgroup_info.PodGroupInfo, max int, counter int) bool = j.Preemptibility == v2alpha2.Preemptible && p.UID != j.UID && !(max != 0 - 1 && counter > max) && activeAlloc(j) > 0
+
+//@ func buildPreemptibleFilterFunc$1
+//@   props C06
+//@   requires job != nil && preemptor != nil
+//@   # data invariant of PodGroupInfo: the cached count exists and is a count
+//@   requires job.activeAllocatedCount != nil && *job.activeAllocatedCount >= 0
+//@   note frame: the captured counter cell cannot be named as a modifies target yet, so the whole family of int cells (family(*p)) is declared modified; the only int cell written is the captured counter
+//@   modifies job.activeAllocatedCount, family(*job.activeAllocatedCount)
+//@   ensures [eligibleVictim] result == old(consolidationVictim(preemptor, job, maxPreempteesToTest, preempteeJobsCounter))
+//@   ensures [onlyPreemptible] result ==> job.Preemptibility == v2alpha2.Preemptible
+//@   ensures [notSelf] result ==> job.UID != preemptor.UID
+//@   ensures [hasActiveTasks] result ==> old(activeAlloc(job)) > 0
+//@   ensures [counts] preempteeJobsCounter == old(preempteeJobsCounter) + ite(result, 1, 0)
+//@ end
+
+// ---- allPodsReallocated ------------------------------------------------------------------------------------
+//@ import scn "github.com/NVIDIA/KAI-scheduler/pkg/scheduler/actions/common/solvers/scenario"
+//@ import common_info "github.com/NVIDIA/KAI-scheduler/pkg/scheduler/api/common_info"
+// The only caller (solvers.byPodSolver.handleScenarioSolution) passes a *scenario.ByNodeScenario, which embeds
+// *BaseScenario; the contract is stated for that dynamic type (call-site fact, by_pod_solver.go:189).
+//@ define baseOf(x api.ScenarioInfo) *scn.BaseScenario = unbox(x, "*scn.ByNodeScenario").BaseScenario
+//@ define scenarioOK(x api.ScenarioInfo) bool = typeis(x, "*scn.ByNodeScenario") && unbox(x, "*scn.ByNodeScenario") != nil && baseOf(x) != nil && scn.sessionJobsOK(baseOf(x)) && scn.victimsSeparate(baseOf(x)) && (forall k in baseOf(x).victims :: baseOf(x).victims[k] != nil && scn.tasksKnown(baseOf(x), baseOf(x).victims[k]))
+// C06: "consolidation evicts a pod only if the same decision re-places it on another node": the scenario
+// validator accepts iff no victim task (as re-resolved to the session's current pod) is left Releasing,
+// i.e. every evicted pod has been re-allocated/pipelined by the same statement.
+//@ define noneReleasing(b *scn.BaseScenario) bool = forall k common_info.PodGroupID, i int :: k in b.victims && 0 <= i && i < len(b.victims[k].Tasks) ==> b.victims[k].Tasks[i].Status != pod_status.Releasing
+
+// the same statement quantified over victim records instead of map keys (equivalent; easier for the solver in the converse direction)
+//@ define isVictim(b *scn.BaseScenario, v *api.VictimInfo) bool = exists k in b.victims :: b.victims[k] == v
+//@ define noneReleasingV(b *scn.BaseScenario) bool = forall v *api.VictimInfo, i int :: isVictim(b, v) && 0 <= i && i < len(v.Tasks) ==> v.Tasks[i].Status != pod_status.Releasing
+
+//@ func allPodsReallocated
+//@   props C06
+//@   requires scenarioOK(scenario)
+//@   nopanic off
+//@   note nopanic off: a re-resolved victim task is nil when the pod is no longer listed in its job (GetVictims writes GetAllPodsMap()[uid]); excluding that needs the session-wide pod index invariant, not stated here
+//@   modifies family(baseOf(scenario).victims[""].Tasks[*])
+//@   loop 1
+//@     invariant forall k common_info.PodGroupID, i int :: k in visited && k in baseOf(scenario).victims && 0 <= i && i < len(baseOf(scenario).victims[k].Tasks) ==> baseOf(scenario).victims[k].Tasks[i].Status != pod_status.Releasing
+//@   loop 2
+//@     invariant 0 - 1 <= rangeindex && rangeindex < len(victim.Tasks)
+//@     invariant forall i int :: 0 <= i && i <= rangeindex ==> victim.Tasks[i].Status != pod_status.Releasing
+//@     invariant isVictim(baseOf(scenario), victim)
+//@     decreases len(victim.Tasks) - rangeindex
+//@   ensures [acceptedOnlyIfAllReplaced] result ==> noneReleasing(baseOf(scenario))
+//@   ensures [allReplacedAccepted] noneReleasingV(baseOf(scenario)) ==> result
+//@ end
+
+// ---- exec: the Execute loop (C05 / C06 / C03) -----------------------------------------------------------
+//@ define sessionJobsOK(ssn *framework.Session) bool = (forall k in ssn.ClusterInfo.PodGroupInfos :: podgroup_info.allTasksOK(ssn.ClusterInfo.PodGroupInfos[k]) && podgroup_info.setsOK(ssn.ClusterInfo.PodGroupInfos[k])) && (forall q in ssn.ClusterInfo.Queues :: ssn.ClusterInfo.Queues[q] != nil)
+
+// Glue around solvers.(*JobSolver).Solve (through attemptToConsolidatePreemptor). ASSUMED (trusted), see the note.
+// C06: "Every such eviction is committed together with the bind or nomination of the workload it was made
+// for": the statement handed back with success is the solver's statement and meets the preconditions of
+// (*Statement).Commit. The ghost mark common.failedAttempt records the outcome for the caller's table.
+//@ func attemptToConsolidateForPreemptor
+//@   props C05 C06 C03
+//@   trusted
+//@   note not verified: [successIsCommittable] is not derivable from the contract of (*JobSolver).Solve (its result0 is computed from the job's counters after whole-heap havocs; "solved ==> the returned statement is the open, well-formed, flat log of the last prefix" needs the unmechanised exact-restoration argument of C13 - helper solver). [outcomeRecorded] only defines the ghost mark.
+//@   requires ssn != nil && job != nil
+//@   modifies *
+//@   ensures [successIsCommittable] result0 ==> result1 != nil && framework.commitReady(result1) && framework.wfLog(result1) && framework.flatLog(result1)
+//@   ensures [outcomeRecorded] common.failedAttempt(job) == !result0
+//@ end
+
+// C05: "scheduling-signature skipping must only prune hopeless scenarios". Consolidation victims are every
+// preemptible job of the cluster, whatever the actor's queue (buildPreemptibleFilterFunc), so ONE action-wide
+// table of failed jobs is intended: the table is declared cluster-wide (assume below; this is what exempts it
+// from the one-queue discipline that preempt and reclaim must prove). A popped job is skipped only on the
+// answer of that table (IsEasierToSchedule [falseNamesStoredRepresentative]: it lost against a stored failed
+// job of its own signature), otherwise it is handed to attemptToConsolidateForPreemptor; stmt.Commit() is
+// reached only with a statement a successful attempt returned (preconditions of Commit, proved at the call
+// site); only a job whose attempt just failed is recorded (precondition [recordsOnlyFailedJobs] of
+// UpdateRepresentative, proved at the call site). No panic on any path (a non-empty order yields a job).
+//@ func (*consolidationAction).Execute
+//@   props C05 C06 C03
+//@   usestable
+//@   requires ssn != nil && ssn.ClusterInfo != nil && ssn.Config != nil && sessionJobsOK(ssn)
+//@   requires [queueDepthNotZero] ssn.GetJobsDepth("consolidation") != 0
+//@   assume forall r *common.MinimalJobRepresentatives :: common.clusterWide(r)
+//@   note assume: design decision made explicit - consolidation's victims do not depend on the actor's queue, its table of failed jobs is shared by all queues
+//@   modifies *
+//@   loop 1
+//@     modifies *
+//@     invariant [tableWellFormed] common.repsWF(smallestFailedJobs)
+//@ end
+// ---- end exec ----
